@@ -19,8 +19,11 @@ class Variable(CFGObject):  # pylint: disable=too-few-public-methods
         self.index_cfg_converter = None
 
     def __eq__(self, other):
-        if isinstance(other, CFGObject):
+        if isinstance(other, Variable):
             return self._value == other.value
+        if isinstance(other, CFGObject):
+            # A terminal is never equal to a variable
+            return False
         return self._value == other
 
     def __str__(self):
